@@ -295,8 +295,16 @@ def gen_links(rng, decls):
             tk, tt = rng.choice(tgts)
             links.append({"src": [l0["tgt"]], "tgt": tk, "fn": rng.choice([None, FN["first"]])})
         elif r < 0.4:    # chain: target is an earlier source (the order that breaks the invariant)
-            sk, st = rng.choice(srcs)
-            links.append({"src": [sk], "tgt": rng.choice(l0["src"]), "fn": rng.choice([None, FN["first"], FN["inc"]])})
+            # ... of ANY source of an earlier link, preferably of a multi-source one, fed from an argument of the same
+            # type so that the parse gets as far as showing the stale target
+            multi = [l for l in links if len(l["src"]) > 1]
+            lx = rng.choice(multi) if multi and rng.random() < 0.7 else l0
+            tk = rng.choice(lx["src"])
+            ttype = dict(srcs).get(tk)
+            same = [s for s, t in srcs if t == ttype and t != "map" and s != tk and s not in lx["src"]]
+            sk = rng.choice(same) if same and rng.random() < 0.8 else rng.choice(srcs)[0]
+            fn = FN["inc"] if ttype == "int" and rng.random() < 0.6 else rng.choice([None, FN["first"]])
+            links.append({"src": [sk], "tgt": tk, "fn": fn})
         elif r < 0.5:    # double target
             sk, st = rng.choice(srcs)
             links.append({"src": [sk], "tgt": l0["tgt"], "fn": None})
@@ -447,6 +455,16 @@ def gen_input(rng, decls, links, family, mode=None):
                 obj = nest([(d["key"], v)] + flat(obj))
             else:
                 argv.append(["opt", d["key"], v if d["kind"] != "str" else rng.choice(WORDS)])
+    # an argument that one link call names as target and another as source (a chain: one of the two calls is refused, or
+    # should be) mostly gets a value from a config, the only channel that can feed a replaced target action
+    src_keys = {k for l in links for k in l["src"]}
+    for d in plain:
+        if d["key"] in tgt_keys and d["key"] in src_keys and rng.random() < 0.6:
+            v = rand_val(rng, d["kind"])
+            if mode == "object":
+                obj = nest([(d["key"], v)] + flat(obj))
+            else:
+                argv.insert(0, ["cfg", nest([(d["key"], v)])])
     # a link into the items of a list of classes is only exercised when the list is there: mostly give one, with items
     # of DIFFERENT classes, some taking the target parameter and some not (the link reaches exactly the former)
     for d in classy:
@@ -525,7 +543,49 @@ def generate(rng, tier):
             cases.append(case)
             if has_list_target and family == "B":
                 cases.append(dict(case, aspect=1))
+    cases += gen_chains(rng, 25 if tier == "quick" else 300)
     cases += gen_trees(rng, 90 if tier == "quick" else 900)
+    return cases
+
+
+def gen_chains(rng, n):
+    """Well-typed chains: int arguments only, an n-ary add link and a second link that touches it in one of the ways
+    _initial_input_checks must refuse (its target is the k-th source of the first link, its source is the first link's
+    target, the same target twice), in either declaration order, with compute functions that always fit (add, inc,
+    identity) — so that a link call that is wrongly accepted shows as a wrong target value and not as a rejected parse.
+    The chained key gets a value from a config / object, the only channel that reaches a replaced target action."""
+    cases = []
+    pool = ["a", "b", "t", "u", "w", "g.x", "g.y", "h.x"]
+    for _ in range(n):
+        keys = rng.sample(pool, rng.randint(4, 6))
+        decls = [{"key": k, "kind": "int", "default": rand_val(rng, "int"), "required": False,
+                  "alias": "long" if rng.random() < 0.2 else None} for k in keys]
+        k = rng.randint(2, 3)
+        srcs, tgt, extra = keys[:k], keys[k], keys[k + 1]
+        first = {"src": srcs, "tgt": tgt, "fn": FN["add"]}
+        how = rng.choice(["into-source", "into-source", "from-target", "same-target"])
+        if how == "into-source":
+            chained = rng.choice(srcs)
+            second = {"src": [extra], "tgt": chained, "fn": rng.choice([FN["inc"], None])}
+        elif how == "from-target":
+            chained = tgt
+            second = {"src": [tgt], "tgt": extra, "fn": rng.choice([FN["inc"], None])}
+        else:
+            chained = tgt
+            second = {"src": [extra], "tgt": tgt, "fn": FN["inc"]}
+        links = [first, second] if rng.random() < 0.6 else [second, first]
+        for _ in range(4):
+            mode = "object" if rng.random() < 0.3 else "args"
+            x = gen_input(rng, decls, links, "B", mode)
+            if rng.random() < 0.8:
+                v = rand_val(rng, "int")
+                if mode == "object":
+                    x["obj"] = nest([(chained, v)] + flat(x["obj"]))
+                else:
+                    x["argv"].insert(0, ["cfg", nest([(chained, v)])])
+            case = dict(decls=decls, links=links, aspect=0, full=True, **x)
+            case["second"] = second_input(rng, decls, x)
+            cases.append(case)
     return cases
 
 
@@ -770,6 +830,14 @@ def describe(case, obs):
 
 
 def shrink(case):
+    if case.get("second") is not None:
+        c = copy.deepcopy(case)
+        c["second"] = None
+        yield c
+        for i in range(len(case["second"]["argv"])):
+            c = copy.deepcopy(case)
+            del c["second"]["argv"][i]
+            yield c
     for i in range(len(case["argv"])):
         c = copy.deepcopy(case)
         del c["argv"][i]
@@ -800,8 +868,9 @@ def shrink(case):
         if not any(u == d["key"] or u.startswith(d["key"] + ".") or d["key"].startswith(u + ".") for u in used):
             c = copy.deepcopy(case)
             del c["decls"][i]
-            c["argv"] = [it for it in c["argv"] if not (it[0] == "opt" and (it[1] == d["key"] or it[1].startswith(d["key"] + ".")))]
-            c["env"] = [e for e in c["env"] if e[0] != d["key"]]
+            for x in [c] + ([c["second"]] if c.get("second") else []):
+                x["argv"] = [it for it in x["argv"] if not (it[0] == "opt" and (it[1] == d["key"] or it[1].startswith(d["key"] + ".")))]
+                x["env"] = [e for e in x["env"] if e[0] != d["key"]]
             yield c
 
 
